@@ -196,7 +196,7 @@ Proof.
                  (fun x => if is_pylist x then EV pf MOpt segs (S i) x c
                            else match x with
                                 | RCoords nd par rf path anc =>
-                                    if is_pynone nd then gone x else EV pf MOpt segs (S i) nd (mkctx par rf true path anc)
+                                    EV pf MOpt segs (S i) nd (mkctx par rf true path anc)
                                 | _ => gerr (PyCrash AttributeError)
                                 end))).
     { apply sres_gbind; [apply Hgg|].
@@ -205,7 +205,7 @@ Proof.
       destruct (is_pylist x) eqn:El; [apply (IH MOpt); auto|].
       destruct x; cbn in Hf, El; try discriminate.
       - rewrite El in Hf. discriminate.
-      - destruct (is_pynone x); [apply sres_gone_q; reflexivity | apply (IH MOpt); auto]. }
+      - apply (IH MOpt); auto. }
     destruct gg as [[|x0 l0] st]; [destruct st|]; try exact Hfound.
     destruct (creatable _); [apply missing_element_res; apply ek_creator_ok | exact Hfound].
   - (* MSeg *)
